@@ -123,6 +123,37 @@ def label_twin_case(v, arrangement, strict, ordered):
                                                      cols_pd=cols1, cols_pl=cols2, msg=o2.get("msg")))
 
 
+def label_twin3_case(v, arrangement, strict, ordered):
+    """three declared columns (b and c optional or required, chosen by the solver), any arrangement of present/absent/undeclared
+    columns: pandas verdict == polars verdict == the documented label-level semantics; same output columns"""
+    import pandera.polars as ppl
+
+    import pvoracle as O
+
+    kinds = {"a": "float", "b": "int", "c": "int", "x": "int"}
+    req_b = v.choice("req_b", [True, False])
+    req_c = v.choice("req_c", [True, False])
+
+    def mk(mod):
+        return mod.DataFrameSchema({"a": mod.Column(float, nullable=True), "b": mod.Column(int, required=req_b), "c": mod.Column(int, required=req_c)},
+                                   strict=strict, ordered=ordered)
+
+    data = {c: [1.0] if kinds[c] == "float" else [1] for c in arrangement}
+    o1 = H.outcome(lambda: mk(pa).validate(real_pd.DataFrame(data)))
+    o2 = H.outcome(lambda: mk(ppl).validate(real_pl.DataFrame(data)))
+    spec = O.FrameSpec({"a": O.FieldSpec("float", nullable=True), "b": O.FieldSpec("int", required=req_b), "c": O.FieldSpec("int", required=req_c)},
+                       strict=strict, ordered=ordered)
+    ok, why = spec.label_level_ok([(c, kinds[c]) for c in arrangement])
+    cols1 = list(o1["out"].columns) if o1["kind"] == "accept" else None
+    cols2 = list(o2["out"].columns) if o2["kind"] == "accept" else None
+    asserts = [("backend_equiv/label_verdict", v.holds((o1["kind"] == "accept") == (o2["kind"] == "accept"))),
+               ("backend_equiv/label_output_columns", v.holds(cols1 == cols2)),
+               ("backend_equiv/label_polars_as_documented", v.holds((o2["kind"] == "accept") == ok)),
+               ("backend_equiv/label_pandas_as_documented", v.holds((o1["kind"] == "accept") == ok))]
+    return dict(obs=None, asserts=asserts, facts=dict(pandas=o1["kind"], polars=o2["kind"], reason_pd=o1.get("reason"), reason_pl=o2.get("reason"),
+                                                     cols_pd=cols1, cols_pl=cols2, documented=[ok, why], _msg=o2.get("msg")))
+
+
 def templates(tier, seed):
     ts = []
     for N in ((2,) if tier == "quick" else (1, 2, 3)):
@@ -136,6 +167,19 @@ def templates(tier, seed):
         for strict in (False, True, "filter"):
             for ordered in (False, True):
                 ts.append(Template(f"LBL/{''.join(arr)}/strict={strict}/ordered={int(ordered)}", label_twin_case, (arr, strict, ordered)))
+    import itertools
+
+    arrs3 = []
+    for k in (1, 2, 3):
+        for sub in itertools.permutations(["a", "b", "c"], k):
+            arrs3.append(list(sub))
+    arrs3 += [["a", "x", "c"], ["x", "a", "b", "c"], ["a", "c", "x"], ["a", "b", "x", "c"]]
+    for arr in arrs3:
+        for strict in (False, True, "filter"):
+            for ordered in (False, True):
+                if tier == "quick" and not ordered and strict is False and len(arr) == 3 and arr != ["a", "b", "c"]:
+                    continue
+                ts.append(Template(f"LBL3/{''.join(arr)}/strict={strict}/ordered={int(ordered)}", label_twin3_case, (arr, strict, ordered)))
     # stage 2: whole-schema equivalence on the frame models (same cell variables on both sides) and the polars verdict against
     # the backend-neutral oracle C01 uses for pandas
     import tmpl
